@@ -1122,6 +1122,10 @@ class Engine:
         if m is None:
             raise Unsupported("statement %s at line %d" % (type(node).__name__, node.lineno))
         from .models import PyRaise
+        if self.cur is not None and getattr(self.cur, "stmt_hooks", None):
+            for pred_, hk_ in self.cur.stmt_hooks:
+                if pred_(node):
+                    hk_(Spec(self, st), st, node)
         try:
             return m(node, st, K)
         except PathEnd:
@@ -1188,6 +1192,11 @@ class Engine:
     def ex_AugAssign(self, node, st, K):
         cur = self.ev(ast.copy_location(self._load(node.target), node), st)
         v = self.ev(node.value, st)
+
+        def fin():
+            if isinstance(node.target, ast.Name) and self.cur is not None and node.target.id in self.cur.hooks:
+                self.run_hook(self.cur.hooks[node.target.id], st, node)
+            return K["next"](st)
         if isinstance(node.op, ast.Add) and self.is_seq(cur, st) and not self.is_np(cur, st):
             # list += list mutates in place
             oa = st.heap[cur.addr]
@@ -1196,17 +1205,15 @@ class Engine:
                 raise Unsupported("list += non-list")
             la, ga, gb = oa.len, oa.get, ob.get
             st.heap[cur.addr] = HSeq(oa.len + ob.len, lambda k: ite(k < la, ga(k), gb(k - la)), etype=oa.etype)
-            return K["next"](st)
+            return fin()
         if self.is_np(cur, st):
             # in place on the array object (aliases see it)
             res = self.binop(node.op, cur, v, st, node)
             st.heap[cur.addr] = st.heap[res.addr]
-            return K["next"](st)
+            return fin()
         res = self.binop(node.op, cur, v, st, node)
         self.assign(node.target, res, st, node)
-        if isinstance(node.target, ast.Name) and self.cur is not None and node.target.id in self.cur.hooks:
-            self.run_hook(self.cur.hooks[node.target.id], st, node)
-        return K["next"](st)
+        return fin()
 
     def _load(self, tgt):
         import copy
